@@ -28,7 +28,8 @@ class C14(Prop):
             "commit); after each failure, after the retry, after a clean run and after inserting the batch twice a fixed "
             "set of 3 limit-free filter lists is queried.  45% reopen cases: 1..6 batches on a file-backed database in "
             "a per-run temp directory, closed and reopened before a batch with probability 60%, next to the same "
-            "history without restarts.  A case is non-trivial when the batch changes an answer (fault) or a restart is "
+            "history without restarts; in 20% of them the file already holds its hash seed when the relay first opens "
+            "it (0 in half of those, else 1, 2^32-1 or random): every open must report that seed.  A case is non-trivial when the batch changes an answer (fault) or a restart is "
             "followed by a replacement or a deletion that changes an answer (reopen); distinct = distinct input JSON")
     trusted_base = SQL_TRUSTED + [
         "SQLite's transaction contract (a rolled-back transaction leaves no trace): assumed in the model "
@@ -71,8 +72,11 @@ class C14(Prop):
     def _inputs(self, c):
         if c["k"] in ("fault", "bigfault"):
             return {"k": c["k"], "qs": c["qs"], "pre": c.get("pre") or [], "b": c.get("b") or []}
-        return {"k": "reopen", "qs": c["qs"],
-                "steps": [{"re": st["re"], "b": st["b"]} for st in c.get("steps") or []]}
+        d = {"k": "reopen", "qs": c["qs"],
+             "steps": [{"re": st["re"], "b": st["b"]} for st in c.get("steps") or []]}
+        if c.get("preset") is not None:
+            d["preset"] = c["preset"]
+        return d
 
     def nontrivial_key(self, c):
         def ids(q):
@@ -94,7 +98,7 @@ class C14(Prop):
             return {"k": c["k"], "pre": [len(b) for b in c.get("pre") or []], "batch": len(c.get("b") or []),
                     "driver_calls": c.get("ncalls"), "fault_positions": c.get("ks") or "all"}
         return {"k": "reopen", "steps": [(st["re"], len(st["b"])) for st in c.get("steps") or []],
-                "seeds": c.get("seeds")}
+                "preset": c.get("preset"), "seeds": c.get("seeds")}
 
     def distribution(self, cases):
         d = {"fault_cases": 0, "big_batch_fault_cases": 0, "fault_positions": 0, "reopen_cases": 0, "reopens": 0, "batches": 0, "events": 0,
